@@ -34,6 +34,18 @@ pub enum Node {
     Number(Decimal),
 }
 
+/// base^exponent. powd computes x^-y as 1 / x^y: for |x| < 1 the intermediate x^y is tiny and keeps only a few of
+/// the 28 digits, so the reciprocal is raised instead (for ^, pow and root alike)
+fn power(base: Decimal, exponent: Decimal) -> Option<Decimal> {
+    if exponent.is_sign_negative() && !base.is_zero() && base.abs() < Decimal::ONE {
+        Decimal::ONE
+            .checked_div(base)
+            .and_then(|reciprocal| checked_powd(reciprocal, -exponent))
+    } else {
+        checked_powd(base, exponent)
+    }
+}
+
 /// Mean of values whose sum does not fit: every value is split into a multiple of the count, divided exactly, and
 /// a remainder below the count; halving each value first would round away the last digit (avg(MAX, MAX) is MAX).
 fn split_mean(values: &[Decimal]) -> Option<Decimal> {
@@ -236,17 +248,7 @@ pub fn eval(expr: Node) -> Result<Decimal, Box<dyn error::Error>> {
         Pow(expr1, expr2) => {
             let base = eval(*expr1)?;
             let exponent = eval(*expr2)?;
-            let power =
-                if exponent.is_sign_negative() && !base.is_zero() && base.abs() < Decimal::ONE {
-                    // powd computes x^-y as 1 / x^y: for |x| < 1 the intermediate x^y is tiny and keeps
-                    // only a few of the 28 digits, so raise the reciprocal instead
-                    Decimal::ONE
-                        .checked_div(base)
-                        .and_then(|reciprocal| checked_powd(reciprocal, -exponent))
-                } else {
-                    checked_powd(base, exponent)
-                };
-            power.ok_or_else(|| "Decimal overflow".into())
+            power(base, exponent).ok_or_else(|| "Decimal overflow".into())
         }
         Log(expr1, expr2) => {
             let x = eval(*expr1)?;
@@ -322,7 +324,7 @@ pub fn eval(expr: Node) -> Result<Decimal, Box<dyn error::Error>> {
             let x = eval(*x_expr)?;
             Decimal::new(1, 0)
                 .checked_div(eval(*n_th_expr)?)
-                .and_then(|exponent| checked_powd(x, exponent))
+                .and_then(|exponent| power(x, exponent))
                 .ok_or_else(|| "The root is not defined for these values".into())
         }
         Min(args) => {
